@@ -278,7 +278,15 @@ static void on_alarm(int sig)
 
 void vf_viol(vf_case *c, const char *key, const char *fmt, ...)
 {
-    if (c->verdict == 1) return;   /* keep the first violation */
+    if (c->verdict == 1) {          /* further violations with a different key are kept too (up to 3) */
+        char k2[200]; snprintf(k2, sizeof k2, "%s%s", key, c->notes);
+        if (!strcmp(k2, c->key) || c->nmore >= 3) return;
+        for (int i = 0; i < c->nmore; i++) if (!strcmp(k2, c->more_key[i])) return;
+        snprintf(c->more_key[c->nmore], sizeof c->more_key[0], "%s", k2);
+        va_list ap2; va_start(ap2, fmt); vsnprintf(c->more_msg[c->nmore], sizeof c->more_msg[0], fmt, ap2); va_end(ap2);
+        if (c->verbose) fprintf(stderr, "VIOL[%s] %s\n", k2, c->more_msg[c->nmore]);
+        c->nmore++; return;
+    }
     c->verdict = 1; snprintf(c->key, sizeof c->key, "%s%s", key, c->notes);
     va_list ap; va_start(ap, fmt); vsnprintf(c->msg, sizeof c->msg, fmt, ap); va_end(ap);
     if (c->verbose) fprintf(stderr, "VIOL[%s] %s\n", c->key, c->msg);
@@ -310,7 +318,23 @@ void vf_log(vf_case *c, const char *fmt, ...)
 {
     if (!c->verbose) return; va_list ap; va_start(ap, fmt); vfprintf(stderr, fmt, ap); va_end(ap); fputc('\n', stderr);
 }
-void vf_check_ledger(vf_case *c, const char *where)
+uint64_t vf_ledger_mark(void) { pthread_mutex_lock(&L_mu); uint64_t v = L_seq; pthread_mutex_unlock(&L_mu); return v; }
+void vf_check_ledger_since(vf_case *c, const char *where, const char *ctx, uint64_t mark)
+{
+    /* blocks allocated after `mark` that are still live: report (key leak[ctx]@oldest site) and release only those */
+    pthread_mutex_lock(&L_mu);
+    long cnt = 0, bytes = 0; lent *o = NULL; char sites[300] = "";
+    for (size_t i = 0; i < L_cap; i++) if (L_tab[i].state == 1 && L_tab[i].seq > mark) {
+        cnt++; bytes += (long)L_tab[i].size; if (!o || L_tab[i].seq < o->seq) o = &L_tab[i];
+        size_t l = strlen(sites); if (l < sizeof sites - 40) snprintf(sites + l, sizeof sites - l, "%s%s:%d(%zu)", l ? "," : "", L_tab[i].func, L_tab[i].line, L_tab[i].size);
+    }
+    char key[200] = ""; if (o) snprintf(key, sizeof key, "leak[%s]@%s", ctx ? ctx : "", o->func);
+    for (size_t i = 0; i < L_cap; i++) if (L_tab[i].state == 1 && L_tab[i].seq > mark) { free(L_tab[i].p); L_tab[i].state = 2; L_live--; L_live_bytes -= (long)L_tab[i].size; }
+    pthread_mutex_unlock(&L_mu);
+    if (cnt) vf_viol(c, key, "%s: %ld block(s), %ld bytes allocated by the call are still live after the caller released what it was handed: %s", where, cnt, bytes, sites);
+}
+void vf_check_ledger(vf_case *c, const char *where) { vf_check_ledger_ctx(c, where, NULL); }
+void vf_check_ledger_ctx(vf_case *c, const char *where, const char *ctx)
 {
     if (vf_bad_frees() > 0) {
         vf_viol(c, "badfree", "%s: %ld free(s) of a pointer that is not a live allocation (first %s)", where, vf_bad_frees(), vf_bad_free_site());
@@ -320,7 +344,7 @@ void vf_check_ledger(vf_case *c, const char *where)
         vf_block b[8]; int k = vf_ledger_list(b, 8);
         /* key by the allocation site function of the oldest leaked block */
         int o = 0; for (int i = 1; i < k; i++) if (b[i].seq < b[o].seq) o = i;
-        char key[200]; snprintf(key, sizeof key, "leak@%s", b[o].func);
+        char key[200]; if (ctx) snprintf(key, sizeof key, "leak[%s]@%s", ctx, b[o].func); else snprintf(key, sizeof key, "leak@%s", b[o].func);
         char sites[300] = ""; for (int i = 0; i < k; i++) { size_t l = strlen(sites); snprintf(sites + l, sizeof sites - l, "%s%s:%d(%zu)", i ? "," : "", b[i].func, b[i].line, b[i].size); }
         vf_viol(c, key, "%s: %ld block(s), %ld bytes still allocated after the caller destroyed everything it was handed: %s", where, live, vf_ledger_live_bytes(), sites);
         vf_ledger_purge();
@@ -334,11 +358,13 @@ void vf_register(const char *name, vf_case_fn fn) { if (NPROPS < 127) { PROPS[NP
 
 static void emit_case(vf_case *c)
 {
-    char k[300], m[900], t[1800], d[1000], line[5200];
+    char k[300], m[900], t[1800], d[1000], line[8200], more[2600] = "";
     jesc(k, sizeof k, c->key); jesc(m, sizeof m, c->msg); jesc(t, sizeof t, c->tags); jesc(d, sizeof d, c->desc);
+    for (int i = 0; i < c->nmore; i++) { char k2[300], m2[600]; jesc(k2, sizeof k2, c->more_key[i]); jesc(m2, sizeof m2, c->more_msg[i]);
+        size_t l = strlen(more); snprintf(more + l, sizeof more - l, "%s{\"key\":\"%s\",\"msg\":\"%s\"}", i ? "," : "", k2, m2); }
     snprintf(line, sizeof line,
-        "{\"t\":\"case\",\"i\":%ld,\"v\":%d,\"key\":\"%s\",\"msg\":\"%s\",\"tags\":\"%s\",\"desc\":\"%s\",\"sig\":\"%016llx\",\"nt\":%d,\"cn\":[%ld,%ld,%ld,%ld,%ld,%ld,%ld,%ld]}\n",
-        c->index, c->verdict, k, m, t, d, (unsigned long long)c->sig, c->nontrivial,
+        "{\"t\":\"case\",\"i\":%ld,\"v\":%d,\"key\":\"%s\",\"msg\":\"%s\",\"more\":[%s],\"tags\":\"%s\",\"desc\":\"%s\",\"sig\":\"%016llx\",\"nt\":%d,\"cn\":[%ld,%ld,%ld,%ld,%ld,%ld,%ld,%ld]}\n",
+        c->index, c->verdict, k, m, more, t, d, (unsigned long long)c->sig, c->nontrivial,
         c->counters[0], c->counters[1], c->counters[2], c->counters[3], c->counters[4], c->counters[5], c->counters[6], c->counters[7]);
     out_line(line);
 }
